@@ -132,6 +132,38 @@ def job_find_geometry():
     pos = [x.re > 0 for x in list(v.values()) + [Rw, Mw, Rb]]
     results = []
     n_ok = n_raise = 0
+
+    def rp_geo(present, layer_index, is_top, has_below, expect_raise):
+        """replay on the real find_geometry_from_config with the model's numbers"""
+        def rp(md):
+            import math
+            f = lambda k, d: float(md[k]) if md.get(k) is not None else d
+            vals = {'radius': f('cfg_radius', 3.0), 'thickness': f('cfg_thickness', 1.0), 'mass': f('cfg_mass', 5.0), 'density': f('cfg_density', 2.0), 'mass_frac': f('cfg_mass_frac', 0.25)}
+            Rw, Mw, Rb = f('world_radius', 4.0), f('world_mass', 40.0), f('radius_below', 2.0)
+            cfgv = {k: vals[k] for k, pr in present.items() if pr}
+            r = replay.call1('TidalPy.structures.layers.helper', 'find_geometry_from_config', cfgv, layer_index, is_top, Rw, Mw, Rb if has_below else None)
+            if expect_raise is not None:
+                raised = (not r['ok']) and 'ParameterMissingError' in (str(r.get('type')) + str(r.get('error')))
+                return raised != expect_raise or (not r['ok'] and not raised), 'real find_geometry_from_config(%r, %d, %s, ...) %s' % (cfgv, layer_index, is_top, 'raised %s' % r.get('error') if not r['ok'] else 'returned %r' % (r['value'],))
+            if not r['ok']:
+                return True, 'real find_geometry_from_config(%r, %d, %s) raised %s' % (cfgv, layer_index, is_top, r.get('error'))
+            radius, thickness, volume, mass, density = r['value']
+            inner = radius - thickness
+            close = lambda a, b: abs(a - b) <= 1e-9 * (abs(a) + abs(b)) + 1e-300
+            bad = []
+            if not close(volume, 4. / 3. * math.pi * (radius ** 3 - inner ** 3)):
+                bad.append('volume')
+            if layer_index == 0 and not close(inner + 1.0, 1.0):
+                bad.append('inner radius of the bottom layer = %r' % inner)
+            if layer_index != 0 and has_below and not close(inner, Rb):
+                bad.append('inner radius %r != radius below %r' % (inner, Rb))
+            if is_top and not present['radius'] and not present['thickness'] and not close(radius, Rw):
+                bad.append('top radius %r != world radius %r' % (radius, Rw))
+            want_mass = vals['mass'] if present['mass'] else (vals['density'] * volume if present['density'] else (Mw * vals['mass_frac'] if present['mass_frac'] else None))
+            if want_mass is not None and not close(mass, want_mass):
+                bad.append('mass %r != %r' % (mass, want_mass))
+            return bool(bad), 'real find_geometry_from_config(%r, %d, %s, Rw=%r, Mw=%r, below=%r) = %r: %s' % (cfgv, layer_index, is_top, Rw, Mw, Rb if has_below else None, r['value'], bad)
+        return rp
     for pattern in itertools.product((False, True), repeat=5):
         present = dict(zip(('radius', 'thickness', 'mass', 'density', 'mass_frac'), pattern))
         cfg = {k: v[k] for k, pr in present.items() if pr}
@@ -145,7 +177,7 @@ def job_find_geometry():
                 ok = not (geo_known and mass_known)
                 results.append(discharge(Obligation('find_geometry_from_config %s layer_index=%d top=%s: raises ParameterMissingError only when geometry or mass is under-determined' % (
                     sorted(cfg), layer_index, is_top), z3.BoolVal(ok), [], with_axioms=False, with_dens=False,
-                    replay=lambda md: (True, 'raised although enough information was given'), key='find_geometry:raise')))
+                    replay=rp_geo(dict(present), layer_index, is_top, below is not None, not (geo_known and mass_known)), key='find_geometry:raise')))
                 continue
             n_ok += 1
             A = list(pos)
@@ -169,7 +201,7 @@ def job_find_geometry():
             elif present['mass_frac']:
                 conds.append(eq_goal(mass, Mw * v['mass_frac']))
             results.append(discharge(Obligation('find_geometry_from_config %s layer_index=%d top=%s: inner radius = radius of the layer below (0 for the bottom layer), shell volume, mass from mass > density > mass_frac' % (
-                sorted(cfg), layer_index, is_top), z3.And(*conds), A, replay=lambda md: (True, 'layer geometry derived from the configuration is inconsistent'), key='find_geometry:value')))
+                sorted(cfg), layer_index, is_top), z3.And(*conds), A, replay=rp_geo(dict(present), layer_index, is_top, below is not None, None), key='find_geometry:value')))
     results.append(reach_twin('find_geometry', pos))
     return {'results': results, 'encoded': loader.ENCODED, 'axioms': CTX.axiom_notes, 'label': 'find_geometry (%d valid, %d raising patterns)' % (n_ok, n_raise)}
 
